@@ -58,8 +58,9 @@ Mark(st, v) ==
     LET val == IF /\ \A l \in ClearsF[v] : st.raw[l] \in Intact
                   /\ \A w \in ReadDepsF[v] : st.cache[w] # "stale"
                THEN "good" ELSE "stale"
+    \* (emptying a lump that holds nothing in this file leaves it as it is)
     IN [cache |-> [st.cache EXCEPT ![v] = val],
-        raw   |-> [l \in Lumps |-> IF l \in ClearsF[v] THEN "cleared" ELSE st.raw[l]]]
+        raw   |-> [l \in Lumps |-> IF l \in ClearsF[v] \ EmptyLumps THEN "cleared" ELSE st.raw[l]]]
 
 (* Reading view v: parse the views the reader dereferences first (only the ones   *)
 (* not cached are parsed), then cache v and empty its lumps.                      *)
